@@ -159,6 +159,82 @@ def _ev_lookup(i):
     return _EVENTS[i]
 
 
+class SimCounter:
+    """The node-id counter: a ``multiprocessing.Value('i')`` in shared memory,
+    used by every process (main parses and re-duplicates, workers substitute).
+    The value is shared by all simulated processes; the accesses whose index
+    is in ``points`` (drawn per run) are pre-emption points, and the lock is a
+    simulated one: an actor that finds it held blocks until it is released."""
+
+    def __init__(self, points=(), every=0):
+        self._v = 0
+        self.ops = 0
+        self.points = set(points)
+        self.every = every
+        self.owner = None
+        self.depth = 0
+        self._lock = _SimCounterLock(self)
+
+    def _point(self, what):
+        self.ops += 1
+        if self.ops in self.points or (self.every
+                                       and self.ops % self.every == 0):
+            S = CTX.S
+            if S is not None and S.me() is not None:
+                CTX.rec.count('fault.preempt_at_id_counter')
+                S.yield_('idc.' + what, self.ops)
+
+    @property
+    def value(self):
+        self._point('get')
+        return self._v
+
+    @value.setter
+    def value(self, x):
+        self._point('set')
+        if x <= self._v and CTX.rec is not None and CTX.S is not None:
+            # probe: the counter went backwards (identities will be handed
+            # out twice); whether two of them meet in one input is decided by
+            # the oracle on the trees
+            CTX.rec.count('id_counter_rewound')
+        self._v = x
+
+    def get_lock(self):
+        return self._lock
+
+
+class _SimCounterLock:
+
+    def __init__(self, c):
+        self.c = c
+
+    def acquire(self, *a, **k):
+        c = self.c
+        S = CTX.S
+        me = S.me() if S is not None else None
+        if me is not None and c.owner is not None and c.owner is not me:
+            CTX.rec.count('id_counter_lock_contended')
+            S.block(lambda: c.owner is None, 'idc.lock')
+        c.owner = me
+        c.depth += 1
+        return True
+
+    def release(self):
+        c = self.c
+        c.depth -= 1
+        if c.depth <= 0:
+            c.depth = 0
+            c.owner = None
+
+    def __enter__(self):
+        self.acquire()
+        return self
+
+    def __exit__(self, *a):
+        self.release()
+        return False
+
+
 class SimManager:
 
     def __init__(self, *a, **kw):
